@@ -723,6 +723,60 @@ func runE2E(f []string) (res string) {
 	return fmt.Sprintf("ok %s signs=%d shutdown=%d", hx.Hex(val), signs, shut.Load())
 }
 
+// wpin <token timeout s> <expiry: 0|1> <other: 0|1>: the whole pinned path.  A worker client fetches key "k" (id 1) through the real
+// handler; the key is rotated on the token (ids 1, 2); if other=1 a second client fetches the key without a pin (so a cache
+// with expiry holds what that lookup returned); then the first client signs with its handle.  workerKey.SignContext sends
+// the id it holds, the handler must carry it to the token: the signature must be made by id 1 (0x51 0x01), or fail.
+func runWPin(f []string) (res string) {
+	setupFake()
+	tok := newFakeToken()
+	tok.tc.Timeout = int(hx.Atoi(f[0]))
+	exp := time.Duration(hx.Atoi(f[1])) * cacheUnit
+	other := f[2] == "1"
+	var shut atomic.Int64
+	cookie := fmt.Sprintf("wpin-%d", idCounter.Add(1))
+	h := workercmd.VerifHandler(tok, exp, []byte(cookie), func() { shut.Add(1) })
+	srv := httptest.NewUnstartedServer(h)
+	srv.Config.SetKeepAlivesEnabled(false)
+	srv.Start()
+	defer srv.Close()
+	cfg := &config.Config{}
+	tc := cfg.NewToken("vt")
+	tc.Retries = 1
+	tc.Timeout = 5
+	kc := cfg.NewKey("k")
+	kc.Token = "vt"
+	wt, err := worker.VerifNewClient(cfg, "vt", srv.Listener.Addr().String(), cookie)
+	if err != nil {
+		panic(err)
+	}
+	key, err := wt.GetKey(context.Background(), "k")
+	if err != nil {
+		return "setup-failed " + err.Error()
+	}
+	held := hx.Hex(key.GetID())
+	tok.mu.Lock()
+	tok.ids["k"] = append(tok.ids["k"], []byte{2})
+	tok.mu.Unlock()
+	if exp > 0 {
+		// the worker's cache forgets what it holds (restart / expiry), so that the next lookup decides what it holds
+		time.Sleep(cacheUnit + 300*time.Millisecond)
+	}
+	seen := "-"
+	if other {
+		k2, err := wt.GetKey(context.Background(), "k")
+		if err != nil {
+			return "setup-failed " + err.Error()
+		}
+		seen = hx.Hex(k2.GetID())
+	}
+	val, err := key.SignContext(context.Background(), []byte("0123456789abcdef0123456789abcdef"), crypto.SHA256)
+	if err != nil {
+		return fmt.Sprintf("ok held=%s other=%s sig=!", held, seen)
+	}
+	return fmt.Sprintf("ok held=%s other=%s sig=%s", held, seen, hx.Hex(val))
+}
+
 const cacheUnit = 2 * time.Second
 
 // cache <expiry: 0|1> <n> <step>*n   steps: get | pin:<id> | rot | exp | fail | tfail (next backend fetch fails with a permanent / temporary error)
@@ -938,6 +992,8 @@ func runOp(f []string) (res string) {
 		return runCache(f[2:])
 	case "cacherace":
 		return runCacheRace(f[2:])
+	case "wpin":
+		return runWPin(f[2:])
 	case "delays":
 		return "ok " + fmtDurs(delaySeq(int(hx.Atoi(f[2]))))
 	case "fatal":
